@@ -179,15 +179,61 @@ def native_korder(seed):
     return max(diffs.values()), dict(check="Si/H, triclinic cell, PBE, unrestricted, k-dependent fillings, k-points listed as (0,1,2) and (2,0,1)", diffs=diffs)
 
 
+def native_korder_smeared(seed):
+    """The same with Fermi smearing: one complete SCF step (Fermi level, smeared fillings, entropy term, all energies) for three weighted k-points in two
+    orders, spin-paired and spin-polarised; the fillings of the second order are the permuted fillings of the first."""
+    import dataclasses
+
+    from eminus import SCF, Atoms
+    from eminus.minimizer import scf_step
+
+    _setup()
+    rng = np.random.default_rng(seed)
+    ks = np.array([[0.0, 0.0, 0.0], [0.2, 0.1, 0.05], [0.1, -0.3, 0.2]])
+    wk = np.array([0.2, 0.3, 0.5])
+    diffs = {}
+    for unres in (False, True):
+        res, Wref, fs = [], None, []
+        for perm in ((0, 1, 2), (2, 0, 1)):
+            at = Atoms(["Si", "H"], [[0.5, 0.6, 0.4], [2.9, 3.0, 3.3]], ecut=4, a=A_TRI, unrestricted=unres)
+            at.s = [11, 11, 13]
+            at.occ.smearing = 0.04
+            at.occ.bands = 5
+            at.set_k(ks[list(perm)], wk[list(perm)])
+            scf = SCF(at, xc="lda,vwn", verbose="critical")
+            at = scf.atoms
+            ns = at.occ.Nspin
+            if Wref is None:
+                Wref = [rng.standard_normal((ns, len(at.Gk2c[ik]), at.occ.Nstate)) + 1j * rng.standard_normal((ns, len(at.Gk2c[ik]), at.occ.Nstate)) for ik in range(3)]
+            scf.W = [Wref[p] for p in perm]
+            scf_step(scf, 0)
+            e = scf.energies
+            res.append({f.name: float(getattr(e, f.name)) for f in dataclasses.fields(e)})
+            fs.append(np.asarray(scf.atoms.occ.f)[np.argsort(perm)])
+        tag = "polarised: " if unres else "paired: "
+        for k in res[0]:
+            diffs[tag + k] = abs(res[0][k] - res[1][k])
+        diffs[tag + "fillings (permuted back)"] = float(np.abs(fs[0] - fs[1]).max())
+        if abs(res[0]["Eentropy"]) < 1e-6:
+            raise RuntimeError("harness: the smeared case has no entropy term")
+    return max(diffs.values()), dict(check="Si/H, smearing 0.04, 5 bands, LDA, k-points listed as (0,1,2) and (2,0,1)", diffs={k: v for k, v in diffs.items() if v > 1e-10} or dict(worst=max(diffs.values())))
+
+
 class KOrderNative:
     def __call__(self, ob, tier, seed):
         worst, info = native_korder(seed)
+        if worst <= 1e-9:
+            w2, info2 = native_korder_smeared(seed)
+            if w2 > 1e-9:
+                worst, info = w2, info2
         if worst > 1e-9:
             return Result(REFUTED, backend="native", witness=dict(seed=seed), replayed=True, replay_info=info, detail=f"an energy component changes by {worst:.2e} when the k-points are listed in another order")
         return Result(BOUNDED_OK, backend="native", detail=f"bounded: every energy component agrees to {worst:.1e} under a permutation of three weighted k-points")
 
     def replay(self, wit):
         worst, info = native_korder(wit["seed"])
+        if worst <= 1e-9:
+            worst, info = native_korder_smeared(wit["seed"])
         return bool(worst > 1e-9), info
 
 
